@@ -360,7 +360,7 @@ func fieldOf(v driver.AVal, n string) (driver.AVal, bool) {
 
 func checkWire(c *core.Check, which string) {
 	c.Assumptions = []string{
-		"domain of DESIGN §4 C09 / §11: path values non-empty, '/'-free and not '.' or '..'; arrays non-empty; header values visible ASCII with inner spaces; times compared as instants; floats finite",
+		"domain of DESIGN §4 C09 / §11: path values non-empty and '/'-free ('.' and '..' included since wave 11); arrays non-empty; header values visible ASCII with inner spaces; times compared as instants; floats finite",
 		"the client under test is NewClient(origin + normalised base path, HTTPClient); the HTTPClient hands the request to API.ServeHTTP in-process (a fresh server-side copy of line, headers and body)",
 		"status codes for default responses are in 200..499; response identity is the Go type returned (server and client share the generated types)",
 	}
@@ -447,7 +447,7 @@ func checkWire(c *core.Check, which string) {
 		}
 		for _, k := range idxs {
 			w := randWireOp(a, k, rand.New(rand.NewSource(cands[k].seed)))
-			a.Paths = append(a.Paths, aspec.PathItem{Template: w.tmpl, Ops: []aspec.Op{w.op}})
+			a.Paths = append(a.Paths, withSibling(w, k))
 			opID := w.op.Method + " " + aspec.TemplateString(w.tmpl)
 			var resps []any
 			hasDefault := false
@@ -898,4 +898,48 @@ func denotations(x string) map[string]any {
 		d["t"] = fmt.Sprintf("t:%d.%09d", tm.Unix(), tm.Nanosecond())
 	}
 	return d
+}
+
+// withSibling: for every sixth operation that has path parameters, those are declared at path-item level and a second
+// operation of the path item - read after the first one - re-declares one of them with a neighbouring type.  The
+// first operation (the one that is called) must keep formatting and parsing its value by the path item's declaration.
+func withSibling(w wireOp, k int) aspec.PathItem {
+	pi := aspec.PathItem{Template: w.tmpl, Ops: []aspec.Op{w.op}}
+	if k%6 != 2 {
+		return pi
+	}
+	var pathParams, rest []aspec.Param
+	for _, p := range w.op.Params {
+		if p.In == "path" && p.Ref == "" {
+			pathParams = append(pathParams, p)
+		} else {
+			rest = append(rest, p)
+		}
+	}
+	if len(pathParams) == 0 {
+		return pi
+	}
+	op := w.op
+	op.Params = rest
+	pi.Params = pathParams
+	// a neighbouring type whose formatter gives another text for the same value (were it used by mistake, the value
+	// would arrive changed or be refused): integers <-> floats, double -> float
+	neighbour := map[string]string{"double": "float", "float": "int64", "int64": "double", "int32": "double", "int": "double"}
+	sib := simpleOp("TRACE", w.tmpl) // (operations are read in the order GET, POST, PATCH, PUT, DELETE, ..., TRACE)
+	sib.Params = nil
+	changed := false
+	for _, p := range pathParams {
+		q := p
+		kind := p.Schema.K
+		if kind == "ref" {
+			kind = strings.ToLower(strings.TrimPrefix(p.Schema.To, "Ref")) // RefDouble -> double
+		}
+		if n := neighbour[kind]; n != "" && !changed {
+			q.Schema = aspec.Schema{K: n}
+			changed = true
+		}
+		sib.Params = append(sib.Params, q)
+	}
+	pi.Ops = []aspec.Op{op, sib}
+	return pi
 }
